@@ -17,7 +17,7 @@ RULE = ("(a) aln_param_init enumerated exhaustively over 2 kinds x 6 type consta
         "that input. Non-trivial/distinct = distinct grid cells + discriminating generated cases.")
 ASSUMPTIONS = ["model tables in vlib/params_model.py are the documented parameter sets",
                "float32 representation: values compared with relative tolerance 1e-6"]
-BUDGET = {"quick": dict(examples=50, workers=12, seconds=60), "thorough": dict(examples=420, workers=16, seconds=400)}
+BUDGET = {"quick": dict(examples=150, workers=12, seconds=60), "thorough": dict(examples=420, workers=16, seconds=400)}
 
 DNA_SET = (["n1", "n2", "n3"], ["ACGTACGTTGCA", "ACGTCGTTGCAA", "ACTTACGTGCA"])
 PROT_SET = (["p1", "p2", "p3"], ["MKVLAAGIDEFWHY", "MKVLGGIDEFWHYR", "MKILAAGDEFWY"])
